@@ -40,6 +40,18 @@ func libCall(c LibCase) {
 		if bl, e := btc.NewBlock(in); e == nil && bl != nil {
 			bl.BuildTxList()
 		}
+	case "blockhead":
+		// trusted.go headTie: what netBlockReceived + chain.PostCheckBlock do with the bytes of a `block` message for a
+		// pending TRUSTED block (block object made from the header, Raw assigned, transaction list, merkle root)
+		if len(in) >= 81 {
+			if bl, e := btc.NewBlock(in[:80]); e == nil && bl != nil {
+				bl.Raw = in
+				if bl.BuildTxListExt(false) == nil {
+					bl.Trusted.Set()
+					bl.GetMerkle()
+				}
+			}
+		}
 	case "GetOpcode":
 		b := in
 		for i := 0; i < len(in)+2 && len(b) > 0; i++ {
